@@ -92,7 +92,7 @@ ufm_log!(ufm512, 288, 6, 6, 8);
 #[cfg(kani)]
 ufm_log!(ufm1024, 640, 10, 8, 8);
 
-//@ harness name=threefish_leaf_mix prop=C10,C01,C20 tier=quick bits=136 est=15 desc="L: crate::mix(r, x) == MIX and crate::inv_mix(r, y) == MIX^-1 of Skein 1.3 for every r: u8 and every 128-bit argument; inv_mix(r, mix(r, x)) == x and mix(r, inv_mix(r, y)) == y"
+//@ harness name=threefish_leaf_mix prop=C10,C01,C20 tier=quick bits=136 est=10 desc="L: crate::mix(r, x) == MIX and crate::inv_mix(r, y) == MIX^-1 of Skein 1.3 for every r: u8 and every 128-bit argument; inv_mix(r, mix(r, x)) == x and mix(r, inv_mix(r, y)) == y"
 verif_harness! {
     name: threefish_leaf_mix,
     bytes: 17,
@@ -324,7 +324,7 @@ verif_harness! {
     unwind: 140,
     prop: |inp| { t256::ks(inp) }
 }
-//@ harness name=tf256_enc prop=C10,C20 tier=quick bits=5120 stub=1 est=85 need=5 desc="W: Threefish256::encrypt_block_u64 == oracle (72 rounds, subkey every 4 rounds, permutation pi, rotation table) on an ARBITRARY subkey table, all blocks; mix uninterpreted"
+//@ harness name=tf256_enc prop=C10,C20 tier=quick bits=5120 stub=1 est=90 need=5 desc="W: Threefish256::encrypt_block_u64 == oracle (72 rounds, subkey every 4 rounds, permutation pi, rotation table) on an ARBITRARY subkey table, all blocks; mix uninterpreted"
 verif_harness! {
     name: tf256_enc,
     bytes: 640,
@@ -332,7 +332,7 @@ verif_harness! {
     stubs: [(crate::mix, t256::stub_mix), (crate::inv_mix, t256::stub_inv_mix)],
     prop: |inp| { t256::enc(inp) }
 }
-//@ harness name=tf256_dec prop=C10,C20 tier=quick bits=5120 stub=1 est=75 need=5 desc="W: Threefish256::decrypt_block_u64 == oracle decryption on an ARBITRARY subkey table, all blocks; inv_mix uninterpreted"
+//@ harness name=tf256_dec prop=C10,C20 tier=quick bits=5120 stub=1 est=85 need=5 desc="W: Threefish256::decrypt_block_u64 == oracle decryption on an ARBITRARY subkey table, all blocks; inv_mix uninterpreted"
 verif_harness! {
     name: tf256_dec,
     bytes: 640,
@@ -340,7 +340,7 @@ verif_harness! {
     stubs: [(crate::mix, t256::stub_mix), (crate::inv_mix, t256::stub_inv_mix)],
     prop: |inp| { t256::dec(inp) }
 }
-//@ harness name=tf256_bytes_enc prop=C10,C20 tier=quick bits=5120 stub=1 est=90 need=9 desc="W: Threefish256 encrypt_block (bytes) == LE(encrypt_block_u64(LE words)), ARBITRARY subkey table, all blocks"
+//@ harness name=tf256_bytes_enc prop=C10,C20 tier=quick bits=5120 stub=1 est=95 need=9 desc="W: Threefish256 encrypt_block (bytes) == LE(encrypt_block_u64(LE words)), ARBITRARY subkey table, all blocks"
 verif_harness! {
     name: tf256_bytes_enc,
     bytes: 640,
@@ -348,7 +348,7 @@ verif_harness! {
     stubs: [(crate::mix, t256::stub_mix), (crate::inv_mix, t256::stub_inv_mix)],
     prop: |inp| { t256::bytes_enc(inp) }
 }
-//@ harness name=tf256_bytes_dec prop=C10,C20 tier=quick bits=5120 stub=1 est=85 need=9 desc="W: Threefish256 decrypt_block (bytes) == LE(decrypt_block_u64(LE words)), ARBITRARY subkey table, all blocks"
+//@ harness name=tf256_bytes_dec prop=C10,C20 tier=quick bits=5120 stub=1 est=95 need=9 desc="W: Threefish256 decrypt_block (bytes) == LE(decrypt_block_u64(LE words)), ARBITRARY subkey table, all blocks"
 verif_harness! {
     name: tf256_bytes_dec,
     bytes: 640,
@@ -356,7 +356,7 @@ verif_harness! {
     stubs: [(crate::mix, t256::stub_mix), (crate::inv_mix, t256::stub_inv_mix)],
     prop: |inp| { t256::bytes_dec(inp) }
 }
-//@ harness name=tf256_rt_ed prop=C01,C20 tier=quick bits=5120 stub=1 est=125 need=5 desc="W: Threefish256 decrypt_block_u64(encrypt_block_u64(b)) == b on an ARBITRARY subkey table (any key, any tweak), all blocks; mix / inv_mix uninterpreted mutual inverses (leaf lemma)"
+//@ harness name=tf256_rt_ed prop=C01,C20 tier=quick bits=5120 stub=1 est=90 need=5 desc="W: Threefish256 decrypt_block_u64(encrypt_block_u64(b)) == b on an ARBITRARY subkey table (any key, any tweak), all blocks; mix / inv_mix uninterpreted mutual inverses (leaf lemma)"
 verif_harness! {
     name: tf256_rt_ed,
     bytes: 640,
@@ -364,7 +364,7 @@ verif_harness! {
     stubs: [(crate::mix, t256::stub_mix), (crate::inv_mix, t256::stub_inv_mix)],
     prop: |inp| { t256::rt_ed(inp) }
 }
-//@ harness name=tf256_rt_de prop=C01,C20 tier=quick bits=5120 stub=1 est=140 need=5 desc="W: Threefish256 encrypt_block_u64(decrypt_block_u64(b)) == b on an ARBITRARY subkey table, all blocks"
+//@ harness name=tf256_rt_de prop=C01,C20 tier=quick bits=5120 stub=1 est=95 need=5 desc="W: Threefish256 encrypt_block_u64(decrypt_block_u64(b)) == b on an ARBITRARY subkey table, all blocks"
 verif_harness! {
     name: tf256_rt_de,
     bytes: 640,
@@ -390,7 +390,7 @@ verif_harness! {
     unwind: 140,
     prop: |inp| { t512::ks(inp) }
 }
-//@ harness name=tf512_enc prop=C10,C20 tier=quick bits=10240 stub=1 est=235 need=10 desc="W: Threefish512::encrypt_block_u64 == oracle (72 rounds, subkey every 4 rounds, permutation pi, rotation table) on an ARBITRARY subkey table, all blocks; mix uninterpreted"
+//@ harness name=tf512_enc prop=C10,C20 tier=quick bits=10240 stub=1 est=240 need=10 desc="W: Threefish512::encrypt_block_u64 == oracle (72 rounds, subkey every 4 rounds, permutation pi, rotation table) on an ARBITRARY subkey table, all blocks; mix uninterpreted"
 verif_harness! {
     name: tf512_enc,
     bytes: 1280,
@@ -398,7 +398,7 @@ verif_harness! {
     stubs: [(crate::mix, t512::stub_mix), (crate::inv_mix, t512::stub_inv_mix)],
     prop: |inp| { t512::enc(inp) }
 }
-//@ harness name=tf512_dec prop=C10,C20 tier=quick bits=10240 stub=1 est=200 need=10 desc="W: Threefish512::decrypt_block_u64 == oracle decryption on an ARBITRARY subkey table, all blocks; inv_mix uninterpreted"
+//@ harness name=tf512_dec prop=C10,C20 tier=quick bits=10240 stub=1 est=210 need=10 desc="W: Threefish512::decrypt_block_u64 == oracle decryption on an ARBITRARY subkey table, all blocks; inv_mix uninterpreted"
 verif_harness! {
     name: tf512_dec,
     bytes: 1280,
@@ -406,7 +406,7 @@ verif_harness! {
     stubs: [(crate::mix, t512::stub_mix), (crate::inv_mix, t512::stub_inv_mix)],
     prop: |inp| { t512::dec(inp) }
 }
-//@ harness name=tf512_bytes_enc prop=C10,C20 tier=quick bits=10240 stub=1 mem=26 est=270 need=17 desc="W: Threefish512 encrypt_block (bytes) == LE(encrypt_block_u64(LE words)), ARBITRARY subkey table, all blocks"
+//@ harness name=tf512_bytes_enc prop=C10,C20 tier=thorough bits=10240 stub=1 mem=26 est=270 need=17 desc="W: Threefish512 encrypt_block (bytes) == LE(encrypt_block_u64(LE words)), ARBITRARY subkey table, all blocks"
 verif_harness! {
     name: tf512_bytes_enc,
     bytes: 1280,
@@ -414,7 +414,7 @@ verif_harness! {
     stubs: [(crate::mix, t512::stub_mix), (crate::inv_mix, t512::stub_inv_mix)],
     prop: |inp| { t512::bytes_enc(inp) }
 }
-//@ harness name=tf512_bytes_dec prop=C10,C20 tier=quick bits=10240 stub=1 mem=26 est=280 need=17 desc="W: Threefish512 decrypt_block (bytes) == LE(decrypt_block_u64(LE words)), ARBITRARY subkey table, all blocks"
+//@ harness name=tf512_bytes_dec prop=C10,C20 tier=thorough bits=10240 stub=1 mem=26 est=280 need=17 desc="W: Threefish512 decrypt_block (bytes) == LE(decrypt_block_u64(LE words)), ARBITRARY subkey table, all blocks"
 verif_harness! {
     name: tf512_bytes_dec,
     bytes: 1280,
@@ -449,7 +449,7 @@ verif_harness! {
 
 // ------------------------------------------------------------------ Threefish-1024 (subkey table 2688 bytes, block 128 bytes)
 
-//@ harness name=tf1024_ks prop=C10,C20 tier=quick bits=1152 est=90 need=6 desc="D: Threefish1024 new_with_tweak_u64 == Skein 1.3 key schedule (C240, t2 = t0^t1, 21 subkeys); new_with_tweak(bytes) == same on LE words; KeyInit::new == zero tweak; all keys and tweaks"
+//@ harness name=tf1024_ks prop=C10,C20 tier=quick bits=1152 est=95 need=6 desc="D: Threefish1024 new_with_tweak_u64 == Skein 1.3 key schedule (C240, t2 = t0^t1, 21 subkeys); new_with_tweak(bytes) == same on LE words; KeyInit::new == zero tweak; all keys and tweaks"
 verif_harness! {
     name: tf1024_ks,
     bytes: 144,
